@@ -1,18 +1,32 @@
 // ---- board_wf is an invariant of play: rules_succ preserves it (induction step for "arbitrarily long games") ----
-pub proof fn lemma_disjoint_move(a: u64, b: u64, c: u64, d: u64, e: u64, f: u64, sm: u64, dm: u64)
+
+/// one kind of a side moves a bit (a -> a) or a pawn promotes (a -> b); the six boards stay pairwise disjoint
+/// and their union changes as expected
+pub proof fn lemma_bv_move(a: u64, b: u64, c: u64, d: u64, e: u64, f: u64, s: u32, t: u32)
     requires
+        s < 64, t < 64, s != t,
         a & b == 0, a & c == 0, a & d == 0, a & e == 0, a & f == 0, b & c == 0, b & d == 0, b & e == 0, b & f == 0,
         c & d == 0, c & e == 0, c & f == 0, d & e == 0, d & f == 0, e & f == 0,
-        (a | b | c | d | e | f) & dm == 0,
+        (a | b | c | d | e | f) & sqm(t) == 0,
+        a & sqm(s) != 0,
     ensures
-        // moving within one kind (a), or from kind a to kind b (promotion), keeps all six pairwise disjoint
-        ((a & !sm) | dm) & b == 0, ((a & !sm) | dm) & c == 0, ((a & !sm) | dm) & d == 0, ((a & !sm) | dm) & e == 0, ((a & !sm) | dm) & f == 0,
-        (a & !sm) & (b | dm) == 0, (b | dm) & c == 0, (b | dm) & d == 0, (b | dm) & e == 0, (b | dm) & f == 0,
-        (a & !sm) & b == 0, (a & !sm) & c == 0, (a & !sm) & d == 0, (a & !sm) & e == 0, (a & !sm) & f == 0,
+        ((a & !sqm(s)) | sqm(t)) & b == 0, ((a & !sqm(s)) | sqm(t)) & c == 0, ((a & !sqm(s)) | sqm(t)) & d == 0,
+        ((a & !sqm(s)) | sqm(t)) & e == 0, ((a & !sqm(s)) | sqm(t)) & f == 0,
+        (a & !sqm(s)) & (b | sqm(t)) == 0, (b | sqm(t)) & c == 0, (b | sqm(t)) & d == 0, (b | sqm(t)) & e == 0, (b | sqm(t)) & f == 0,
+        (a & !sqm(s)) & c == 0, (a & !sqm(s)) & d == 0, (a & !sqm(s)) & e == 0, (a & !sqm(s)) & f == 0,
+        // union, in every permutation order used by all_occ
+        (((a & !sqm(s)) | sqm(t)) | b | c | d | e | f) == ((a | b | c | d | e | f) & !sqm(s)) | sqm(t),
+        ((a & !sqm(s)) | (b | sqm(t)) | c | d | e | f) == ((a | b | c | d | e | f) & !sqm(s)) | sqm(t),
 {
-    assert(a & b == 0 && a & c == 0 && a & d == 0 && a & e == 0 && a & f == 0 && b & c == 0 && b & d == 0 && b & e == 0 && b & f == 0
-        && c & d == 0 && c & e == 0 && c & f == 0 && d & e == 0 && d & f == 0 && e & f == 0 && (a | b | c | d | e | f) & dm == 0
-        ==> ((a & !sm) | dm) & b == 0 && ((a & !sm) | dm) & c == 0 && ((a & !sm) | dm) & d == 0 && ((a & !sm) | dm) & e == 0 && ((a & !sm) | dm) & f == 0
-         && (a & !sm) & (b | dm) == 0 && (b | dm) & c == 0 && (b | dm) & d == 0 && (b | dm) & e == 0 && (b | dm) & f == 0
-         && (a & !sm) & b == 0 && (a & !sm) & c == 0 && (a & !sm) & d == 0 && (a & !sm) & e == 0 && (a & !sm) & f == 0) by(bit_vector);
+    let (x, y) = (s as u64, t as u64);
+    assert(x < 64 && y < 64 && x != y
+        && a & b == 0 && a & c == 0 && a & d == 0 && a & e == 0 && a & f == 0 && b & c == 0 && b & d == 0 && b & e == 0 && b & f == 0
+        && c & d == 0 && c & e == 0 && c & f == 0 && d & e == 0 && d & f == 0 && e & f == 0
+        && (a | b | c | d | e | f) & (1u64 << y) == 0 && a & (1u64 << x) != 0
+        ==> ((a & !(1u64 << x)) | (1u64 << y)) & b == 0 && ((a & !(1u64 << x)) | (1u64 << y)) & c == 0 && ((a & !(1u64 << x)) | (1u64 << y)) & d == 0
+         && ((a & !(1u64 << x)) | (1u64 << y)) & e == 0 && ((a & !(1u64 << x)) | (1u64 << y)) & f == 0
+         && (a & !(1u64 << x)) & (b | (1u64 << y)) == 0 && (b | (1u64 << y)) & c == 0 && (b | (1u64 << y)) & d == 0 && (b | (1u64 << y)) & e == 0 && (b | (1u64 << y)) & f == 0
+         && (a & !(1u64 << x)) & c == 0 && (a & !(1u64 << x)) & d == 0 && (a & !(1u64 << x)) & e == 0 && (a & !(1u64 << x)) & f == 0
+         && (((a & !(1u64 << x)) | (1u64 << y)) | b | c | d | e | f) == ((a | b | c | d | e | f) & !(1u64 << x)) | (1u64 << y)
+         && ((a & !(1u64 << x)) | (b | (1u64 << y)) | c | d | e | f) == ((a | b | c | d | e | f) & !(1u64 << x)) | (1u64 << y)) by(bit_vector);
 }
